@@ -92,6 +92,12 @@ def families(tier):
               dict(bus='A', pat='*', name='h3', prog=[('pause',), ('ret', 3)]), dict(bus='A', pat='P', name='h4', prog=[('disp', 'A', 'C', 'await')]), dict(bus='A', pat='C', name='hc', prog=[('ret', 1)])]
         main = [('disp', 'A', 'P', 'ff'), ('disp', 'A', 'X', 'ff'), ('pause',), ('disp', 'A', 'P2', 'ff')]
         add('c01.registration', f'raises-{kind}-{exc}', scn({'A': {}}, hs, main), kind=kind)
+    # --- family 2d: an event class that pins its own event_type (class 'Ov', events of type 'O'): handlers registered by that CLASS, by the type name and by '*'
+    for kind, pats in itertools.product(['async', 'sync', 'amethod'], [['O'], ['s:O'], ['O', 's:O'], ['O', '*']]):
+        hs = [dict(bus='A', pat=pats, name='h1', prog=[('ret', 1)] if kind == 'sync' else [('pause',), ('ret', 1)], kind=kind), dict(bus='A', pat='O', name='h2', prog=[('ret', 2)]),
+              dict(bus='A', pat='*', name='hw', prog=[('ret', 9)], kind='sync'), dict(bus='A', pat='X', name='hx', prog=[('disp', 'A', 'O', 'ff')])]
+        main = [('disp', 'A', 'O', 'ff'), ('disp', 'A', 'X', 'ff')]
+        add('c01.registration', f'pinned-type-{kind}-{"+".join(pats).replace("*", "star").replace(":", "")}', scn({'A': {}}, hs, main), kind=kind)
     # --- family 2c: handlers that are bound methods of an EventBus instance (a component class deriving from EventBus that subscribes its own methods),
     # registered on that bus itself or on another bus, reached directly and through forwarding
     for kind, owner, reg_on, entry in itertools.product(['abusmethod', 'busmethod'], 'AB', 'AB', 'AB'):
